@@ -220,6 +220,9 @@ func pushOf(data []byte) []byte {
 	}
 }
 
+// genLongNumbers is a per-run emphasis (swarm style) set by a world: every splice slot becomes long-number arithmetic.
+var genLongNumbers bool
+
 func genScript(c *kernel.RunCtx, n int, pushOnly bool) []byte {
 	var s []byte
 	depth := 0
@@ -263,6 +266,23 @@ func genScript(c *kernel.RunCtx, n int, pushOnly bool) []byte {
 				depth++
 			}
 		case 4:
+			if c.Bool(1, 10) || genLongNumbers {
+				// arithmetic on a long number (5..40 bytes, either sign): only meaningful after Genesis
+				d := c.Bytes(5 + c.Choose(36))
+				if c.Bool(2, 3) {
+					d[len(d)-1] |= 0x80
+				}
+				if d[len(d)-1]&0x7f == 0 {
+					d[len(d)-1] |= 0x01
+				}
+				s = append(s, pushOf(d)...)
+				s = append(s, []byte{0x8b, 0x8c, 0x8f, 0x90, 0x91, 0x92}[c.Choose(6)])
+				if c.Bool(1, 2) {
+					s = append(s, 0x75, 0x51)
+				}
+				c.End()
+				continue
+			}
 			if c.Bool(1, 14) {
 				// a non-minimally encoded number, duplicated, one copy normalised, the two compared
 				d := [][]byte{{0x01, 0x00, 0x80}, {0x05, 0x00, 0x00, 0x00, 0x80}, {0x7f, 0x00}, {0x00, 0x80}, {0x01, 0x00}}[c.Choose(5)]
